@@ -1,3 +1,5 @@
 //! Verification machinery (engines + one module per property).
 pub mod common;
+mod c02;
+mod c08;
 mod c09;
